@@ -14,28 +14,6 @@ import (
 
 var c14Specs = map[string]*EnumSpec{}
 
-func trailingAbsent(s *EnumSpec, v []int, names ...string) bool {
-	seenAbsent := false
-	for _, n := range names {
-		if v[s.idx(n)] == 0 {
-			seenAbsent = true
-		} else if seenAbsent {
-			return false
-		}
-	}
-	return true
-}
-
-func joinNonAbsent(s *EnumSpec, v []int, pre string, names ...string) string {
-	out := ""
-	for _, n := range names {
-		if x := s.Val(v, n); x != "absent" {
-			out += pre + x
-		}
-	}
-	return out
-}
-
 // ---- SIP / SIPS URI ----
 
 func c14URIText(s *EnumSpec, v []int) string {
@@ -449,7 +427,7 @@ func init() {
 
 	order := []string{"uri", "via", "from", "to", "route", "record-route", "addrspec", "cseq"}
 	addCheck(&Check{ID: "C14", Level: "exploration",
-		Rule: "every derivation of a bounded grammar per decoded type (SIP/SIPS URI: user x host x port x all parameter sequences of length 0-3 x header sequences 0-2; Via: sent-protocol x host x port x parameter sequences 0-3 x 1-5 entries; From/To: form x display name x URI x header-parameter sequences 0-3; Route/Record-Route lists of 1-3 entries; Request-URI forms; CSeq), called directly on Parse*/String; laws: decode->encode equals the generator's abstract value component-wise (independent reader), encode-decode-encode idempotent, accessors equal the components the text denotes; non-trivial = decodable value",
+		Rule:   "every derivation of a bounded grammar per decoded type (SIP/SIPS URI: user x host x port x all parameter sequences of length 0-3 x header sequences 0-2; Via: sent-protocol x host x port x parameter sequences 0-3 x 1-5 entries; From/To: form x display name x URI x header-parameter sequences 0-3; Route/Record-Route lists of 1-3 entries; Request-URI forms; CSeq), called directly on Parse*/String; laws: decode->encode equals the generator's abstract value component-wise (independent reader), encode-decode-encode idempotent, accessors equal the components the text denotes; non-trivial = decodable value",
 		Assume: []string{"IPv6 references and user parts containing ';' or '?' are generated as the property says and tracked in KNOWN_FINDINGS.txt"},
 		Run: func(c *Ctx) {
 			for _, k := range order {
